@@ -320,7 +320,12 @@ func oracleC16Server(run *Run) {
 		return
 	}
 	// failed after the hijack (transport fault while writing the 101): the connection must be closed
-	if sc := log.SrvConn; sc != nil && run.Scn.HS.Srv.Server != "nethttp" && !sc.IsClosed() {
+	sc := log.SrvConn
+	if sc == nil && len(run.Conns) > 1 {
+		sc = run.Conns[1] // with net/http the handler never sees the transport; it is the accepting end of pair 0
+	}
+	afterHijack := !strings.HasPrefix(log.UpgradeErr, "websocket:") || strings.Contains(string(resp), "HTTP/1.1 101")
+	if sc != nil && afterHijack && log.UpgradeErr != "" && !strings.HasPrefix(log.UpgradeErr, "bad request") && !sc.IsClosed() {
 		run.fail("C16", "connection-leaked", "server", "Upgrade failed after the hijack (%s) and left the connection open", log.UpgradeErr)
 	}
 }
